@@ -99,26 +99,41 @@ Example C19_sha256_meets_hypotheses :
 Proof. split; [exact sha256_length | exact sha256_bytes]. Qed.
 
 (* DirFiles: under a plain prefix (non-empty relative slash path without empty, "." or
-   ".." elements) a file at rel is named prefix/rel; under the empty prefix, rel. *)
+   ".." elements) a file at rel is named prefix/rel; under the empty prefix, rel — however
+   the directory argument is spelled (".", "./", "sub", "./sub/", absolute), as long as it
+   is not the root "/" (where the code drops the first byte of every name, see the
+   example below). *)
 Theorem C19_dir_files_naming :
-  forall (t : tree) (prefix : str),
+  forall (dir : str) (t : tree) (prefix : str),
+    clean dir <> [47] ->
     (forall e, In e t -> good_path (fst e)) ->
-    (good_path prefix -> dir_files t prefix = map (fun e => prefix ++ 47 :: fst e) t) /\
-    dir_files t [] = map fst t.
+    (good_path prefix -> dir_files dir t prefix = map (fun e => prefix ++ 47 :: fst e) t) /\
+    dir_files dir t [] = map fst t.
 Proof. exact dir_files_naming_both. Qed.
 Print Assumptions C19_dir_files_naming.
 
 (* Hashing a zip equals hashing the directory it extracts to under the same prefix: if
    the archive's entries are, in any order, exactly the tree's files (distinct plain
-   relative paths) with every name prefixed by prefix/ and the same contents. *)
+   relative paths) with every name prefixed by prefix/ and the same contents — for every
+   spelling of the directory argument except "" (HashDir("", prefix) opens "/rel": lemma
+   hash_dir_empty_dir_outside) and the root "/". *)
 Theorem C19_zip_dir_agree :
-  forall (sha : str -> str) (z : zip) (t : tree) (prefix : str),
+  forall (sha : str -> str) (z : zip) (dir : str) (t : tree) (prefix : str),
+    dir <> [] -> clean dir <> [47] ->
     good_path prefix ->
     NoDup (map fst t) /\ (forall e, In e t -> good_path (fst e)) ->
     Permutation z (map (fun e => (prefix ++ 47 :: fst e, snd e)) t) ->
-    hash_zip sha z = hash_dir sha t prefix.
+    hash_zip sha z = hash_dir sha dir t prefix.
 Proof. exact zip_dir_agree. Qed.
 Print Assumptions C19_zip_dir_agree.
+
+(* the excluded directory argument: for dir = "/" the faithful model (like the code)
+   cuts one byte too many; and "." keeps the leading dot of top-level dot files *)
+Example C19_dir_files_root_and_dot :
+  dir_files (B "/") [(B "ab", Some [])] (B "p") = [B "p/b"] /\
+  dir_files (B "./") [(B ".gitignore", Some []); (B ".github/x", Some [])] (B "p")
+    = [B "p/.gitignore"; B "p/.github/x"].
+Proof. split; vm_compute; reflexivity. Qed.
 
 (* non-vacuity: a module-like prefix and tree satisfy the hypotheses, and the two hashes
    (with the real SHA-256) are an actual h1: value *)
@@ -127,7 +142,7 @@ Example C19_zip_dir_agree_example :
   let t : tree := [(B "go.mod", Some (B "module m")); (B "a/b  c.go", Some (B "package b"))] in
   let z : zip := [(B "m@v1.0.0/a/b  c.go", Some (B "package b")); (B "m@v1.0.0/go.mod", Some (B "module m"))] in
   good_path prefix /\ tree_wf t /\ Permutation z (map (rename prefix) t) /\
-  hash_zip sha256 z = hash_dir sha256 t prefix /\
+  hash_zip sha256 z = hash_dir sha256 (B ".") t prefix /\
   exists h, hash_zip sha256 z = Ok (B "h1:" ++ h).
 Proof.
   cbv zeta.
@@ -143,5 +158,5 @@ Proof.
                    [(B "go.mod", Some (B "module m")); (B "a/b  c.go", Some (B "package b"))])).
   { apply perm_swap. }
   split; [exact G|]. split; [exact W|]. split; [exact P|].
-  split; [now apply zip_dir_agree | eexists; vm_compute; reflexivity].
+  split; [apply zip_dir_agree; [discriminate | vm_compute; discriminate | exact G | exact W | exact P] | eexists; vm_compute; reflexivity].
 Qed.
